@@ -50,6 +50,7 @@ var c17GenNames = []string{"default", "underscore", "rotate", "identity"}
 
 type c17Script struct {
 	Tracking   bool
+	Toggle     bool // tracked at first; tracking is switched off after the first event following the welcome (and the rest is judged untracked)
 	Joined     bool // tracked: join a channel after the welcome (the JOIN handler calls Me())
 	Gen        string
 	Collisions int
@@ -58,7 +59,7 @@ type c17Script struct {
 }
 
 func (sc c17Script) String() string {
-	return fmt.Sprintf("tracking=%v joined=%v gen=%s collisions=%d welcome-different=%v events=%s", sc.Tracking, sc.Joined, sc.Gen, sc.Collisions, sc.WelcomeDif, string(sc.Events))
+	return fmt.Sprintf("tracking=%v toggle-off=%v joined=%v gen=%s collisions=%d welcome-different=%v events=%s", sc.Tracking, sc.Toggle, sc.Joined, sc.Gen, sc.Collisions, sc.WelcomeDif, string(sc.Events))
 }
 
 func runC17(c *Ctx) {
@@ -93,13 +94,13 @@ func runC17(c *Ctx) {
 		}
 		rec(nil)
 		idx := 0
-		for _, tr := range []int{0, 1, 2} {
+		for _, tr := range []int{0, 1, 2, 3} {
 			for _, g := range c17GenNames {
 				for col := 0; col <= 3; col++ {
 					for _, wd := range []bool{false, true} {
 						for _, sq := range seqs {
 							if idx%parts == part && c.Want("exh", idx) {
-								sc := c17Script{Tracking: tr > 0, Joined: tr == 2, Gen: g, Collisions: col, WelcomeDif: wd, Events: sq}
+								sc := c17Script{Tracking: tr > 0, Joined: tr == 2, Toggle: tr == 3, Gen: g, Collisions: col, WelcomeDif: wd, Events: sq}
 								if !c17Run(c, "exh", idx, sc) {
 									return
 								}
@@ -110,7 +111,7 @@ func runC17(c *Ctx) {
 				}
 			}
 		}
-		c.R.Exhaustive[fmt.Sprintf("all scripts: 3 tracking modes x 4 generators x collisions 0..3 x 2 welcomes x event sequences of length <= %d over {C,R,D,F,O}", maxLen)] = c.Only == ""
+		c.R.Exhaustive[fmt.Sprintf("all scripts: 4 tracking modes (off, on, on+joined, on then switched off after the first event) x 4 generators x collisions 0..3 x 2 welcomes x event sequences of length <= %d over {C,R,D,F,O}", maxLen)] = c.Only == ""
 	case "prng":
 		part, parts := c.ArgInt("part", 0), c.ArgInt("parts", 1)
 		total := c.Pick(1500, 60000)
@@ -121,8 +122,8 @@ func runC17(c *Ctx) {
 				continue
 			}
 			r := rig.Rand(c.Seed, "C17", "prng", idx)
-			tr := r.Intn(3)
-			sc := c17Script{Tracking: tr > 0, Joined: tr == 2, Gen: c17GenNames[r.Intn(4)], Collisions: r.Intn(7), WelcomeDif: r.Intn(2) == 0}
+			tr := r.Intn(4)
+			sc := c17Script{Tracking: tr > 0, Joined: tr == 2, Toggle: tr == 3, Gen: c17GenNames[r.Intn(4)], Collisions: r.Intn(7), WelcomeDif: r.Intn(2) == 0}
 			for k := r.Intn(41); k > 0; k-- {
 				sc.Events = append(sc.Events, "CRDFO"[r.Intn(5)])
 			}
@@ -362,6 +363,13 @@ func c17Run(c *Ctx, gen string, idx int, sc c17Script) bool {
 		if !check(when) {
 			return c.R.NumViolations() < 30
 		}
+		if sc.Toggle && i == 0 {
+			conn.DisableStateTracking()
+			sc.Tracking = false
+			if !check("after switching state tracking off") {
+				return c.R.NumViolations() < 30
+			}
+		}
 	}
 	CloseWatched(conn)
 	c.R.Eval(1)
@@ -370,7 +378,7 @@ func c17Run(c *Ctx, gen string, idx int, sc c17Script) bool {
 		if len(pre) > 3 {
 			pre = pre[:3]
 		}
-		c.R.Class(fmt.Sprintf("t=%v|j=%v|%s|col=%d|wd=%v|%s", sc.Tracking, sc.Joined, sc.Gen, min(sc.Collisions, 4), sc.WelcomeDif, pre))
+		c.R.Class(fmt.Sprintf("t=%v|tog=%v|j=%v|%s|col=%d|wd=%v|%s", sc.Tracking, sc.Toggle, sc.Joined, sc.Gen, min(sc.Collisions, 4), sc.WelcomeDif, pre))
 	}
 	if idx%499 == 0 {
 		c.R.Sample(map[string]interface{}{"script": sc.String(), "final_server_nick": srvNick})
